@@ -55,6 +55,63 @@ CHECKS = {
         note='Trusted: the pairing oracle (Appendix F.6), SimLoop cancellation timing, SimNet. Tracers do not raise.',
         technique='deterministic simulation: fault sequences + seeded cancellation instants, history pairing oracle',
     ),
+    'C01': dict(
+        category='exploration', design_ref='DESIGN.md section 3, C01',
+        text='Invariant monitor at the simulated server seam: every request text delivered to the real sync / async '
+             'dispatcher (generated traffic incl. all-notification batches; the same traffic through a corrupting '
+             'request leg: truncation, garbling, insertion, span repetition, oversized integer literals, structure-aware '
+             'member replacement, nesting up to 64; documents composed by a hostile peer from per-member alphabets) '
+             'must yield None or (text, codes) with a valid, non-empty JSON-RPC 2.0 response document and agreeing '
+             'codes; async batches run under seeded schedules with suspending methods. Sampled inputs, not enumerated.',
+        note='Trusted: ref_jsonrpc.valid_response. Weakest simulation content of the claimed set: only the async batch '
+             'path has a schedule in it; the simulator contributes traffic, wire-fault model and monitor.',
+        technique='deterministic simulation: wire-fault injection on the request leg + invariant monitor at the server seam',
+    ),
+    'C02': dict(
+        category='exploration', design_ref='DESIGN.md section 3, C02',
+        text='Real sync / async dispatcher (seeded schedules, suspending methods) serving generated single requests and '
+             'batches over the element alphabet of the property (call / notification x succeeds / unknown / unbindable / '
+             'protocol error / arbitrary exception / invalid object; id typings; duplicate ids; max_batch_size around the '
+             'length); reply and recorded executions compared with a reference dispatcher, and every accepted batch '
+             'compared element by element with the replies of its elements sent alone to identically configured fresh '
+             'servers in the same world.',
+        note='Trusted: ref_dispatch (written from the JSON-RPC 2.0 specification), the instrumented service. '
+             'max_batch_size=0 accepted under both readings.',
+        technique='deterministic simulation: seeded schedules, exactly-once execution log, differential vs reference and vs solo sends',
+    ),
+    'C03': dict(
+        category='fault_enumeration', design_ref='DESIGN.md section 3, C03',
+        text='Fault enumeration at the callee seam (every failure kind x protocol code | exception type x batch length x '
+             'position x call/notification as forced choice prefixes, then seeded combinations) and at the wire seam '
+             '(request-leg corruption); replies compared with the reference error mapping (-32700/-32600/-32601/-32602, '
+             'verbatim protocol errors incl. absent vs null data, -32000 without data) and searched for marker strings '
+             'and exception type names that must not leak.',
+        note='Trusted: ref_dispatch; data of library-generated errors is not modelled; huge integer literals are an '
+             'open zone (C01 only).',
+        technique='deterministic simulation: systematic single-fault placements + seeded fault combinations, reference error mapping',
+    ),
+    'C10': dict(
+        category='exploration', design_ref='DESIGN.md section 3, C10',
+        text='The real AsyncDispatcher serves batches of 2-4 elements whose methods, middlewares and error handlers '
+             'suspend at up to 2 seeded points each; the simulated event loop decides every interleaving (FIFO, uniform '
+             'random pick, PCT priorities) in virtual time. The reply must equal the reference chain (request order, own '
+             'id, own result/error), every method must have run exactly once, and with concurrent_batch=False the '
+             'in-flight intervals must be pairwise disjoint and in request order. Interleavings are sampled (distinct '
+             'interleaving signatures reported), not enumerated.',
+        note='Trusted: SimLoop (subclass of asyncio.BaseEventLoop), ref_chain. Exhaustive enumeration of interleavings '
+             'would be model checking and is not claimed.',
+        technique='deterministic simulation: seeded schedulers over suspending batch elements, in-flight interval oracle',
+    ),
+    'C12': dict(
+        category='exploration', design_ref='DESIGN.md section 3, C12',
+        text='Instrumented middlewares (pass-through, short-circuit, request-rewriting, response-rewriting; stacks of '
+             '0-3) and error handlers (identity, code-replacing, annotating; generic / per-code / several per key) on the '
+             'real sync and async dispatchers; per request element the projected event log and the reply are compared '
+             'with a reference chain, for successes, every failure class, notifications, batches and rejected documents; '
+             'async chains suspend and interleave under seeded schedules.',
+        note='Trusted: ref_chain (Appendix F.3). Middlewares / handlers do not raise.',
+        technique='deterministic simulation: instrumented callee chain, per-element event-log oracle vs reference chain',
+    ),
 }
 
 BUILT = sorted(CHECKS)
